@@ -236,6 +236,19 @@ def check(P, rep):
             # when a minter is given, success requires installing it
             rep.check(bool(given) and g.success_needs([e.node], [x.edge for x in guard_sel(g, lambda c_: c_ == ('absent', minter))]), 'C11.R4',
                       'token-constructor:minter-installed', 'a designated minter is installed whenever one is given', esite(g, e))
+    # the owner-mint used by the service for inbound transfers needs exactly: owner auth + the owner being a minter
+    if 'mint' in tc.entries:
+        gm = P.graph('interchain_token', 'mint')
+        credits = [e for e in state_effects(gm) if e.kind in ('sw', 'supd') and key_variant(e.key)[0] == 'Balance']
+        rep.floor('token mint credit', len(credits), 1)
+        member = guard_sel(gm, lambda c_: c_[0] == 'present' and c_[1][0] == 'skey' and key_variant(c_[1][2])[0] == 'Minter'
+                           and is_sget(key_variant(c_[1][2])[1][0], 'instance', 'Interfaces_Owner'))
+        other = guard_sel(gm, lambda c_: c_[0] in ('present', 'absent') and c_[1][0] == 'skey' and key_variant(c_[1][2])[0] == 'Minter'
+                          and not is_sget(key_variant(c_[1][2])[1][0], 'instance', 'Interfaces_Owner'))
+        rep.check(bool(member) and not other, 'C11.R4', 'token-mint:owner-membership', 'owner mint checks minter membership of the stored owner only (so the service, owner and minter of every '
+                  'token it deploys, can mint for inbound transfers)', entry_id(gm))
+        for e in credits:
+            rep.check(core(key_variant(e.key)[1][0]) == gm.P(1), 'C11.R4', 'token-mint:credits-recipient', 'owner mint credits the `to` parameter', esite(gm, e))
     metas = [e for e in effs if e.kind == 'meta']
     rep.check(len(metas) == 1 and core(metas[0].val) == meta and g.success_needs([metas[0].node]), 'C11.R4', 'token-constructor:metadata',
               'the requested metadata is stored', entry_id(g))
